@@ -462,6 +462,54 @@ def loop_ordinals(fn_node):
     return out
 
 
+def loop_header(n):
+    if isinstance(n, ast.For):
+        return f'for {ast.unparse(n.target)} in {ast.unparse(n.iter)}'
+    return f'while {ast.unparse(n.test)}'
+
+
+def resolve_loop_ref(fn_node, ref):
+    """'@<header prefix>#<k>[/<j>...]' -> ordinal string of the k-th loop (source order, any nesting depth) whose header
+    text starts with the prefix; '/j' descends to the j-th loop directly inside.  Plain ordinals are returned unchanged."""
+    if not ref.startswith('@'):
+        return ref
+    ords = loop_ordinals(fn_node)
+    head, *down = ref[1:].split('/')
+    prefix, _, k = head.rpartition('#')
+    if not prefix:
+        prefix, k = head, '0'
+    loops = [n for n in ast.walk(fn_node) if isinstance(n, (ast.For, ast.While)) and id(n) in ords]
+    loops.sort(key=lambda n: (n.lineno, n.col_offset))
+    hits = [n for n in loops if loop_header(n).startswith(prefix)]
+    if int(k) >= len(hits):
+        raise VCError(f'anchor-missing: no loop #{k} starting with {prefix!r}')
+    o = ords[id(hits[int(k)])]
+    for j in down:
+        o = f'{o}.{j}'
+    return o
+
+
+def resolve_loop_keys(fn_node, loops):
+    """the loops= table of a contract with symbolic keys resolved to ordinals (unresolvable keys are left out: their
+    loops will then be reported as lacking an invariant, i.e. undecided)"""
+    out = {}
+    for key, spec in (loops or {}).items():
+        try:
+            out[resolve_loop_ref(fn_node, key)] = spec
+        except VCError:
+            continue
+    return out
+
+
+def contract_loops(fi, c):
+    """loops= of a contract keyed by ordinals (symbolic keys resolved against the current source)"""
+    if c is None or not c.loops:
+        return {}
+    if not any(k_.startswith('@') for k_ in c.loops):
+        return c.loops
+    return resolve_loop_keys(fi.node, c.loops)
+
+
 def assigned_names(stmts):
     names = set()
     for s in stmts:
@@ -484,7 +532,7 @@ def loop_spec(ex, cx, s):
     c = cx.contract if cx.contract is not None else ex.reg.primary(fi.key)
     spec = None
     if c is not None:
-        spec = c.loops.get(o)
+        spec = contract_loops(fi, c).get(o)
     return o, spec
 
 
@@ -528,7 +576,7 @@ def loop_core(ex, st, s, cx, o, spec, guard_fn, bind_fn, idx_sv, extra_inv=None,
         while '.' in po:
             po = po.rsplit('.', 1)[0]
             pc = cx.contract if cx.contract is not None else ex.reg.primary(cx.fi.key)
-            pspec = pc.loops.get(po) if pc is not None else None
+            pspec = contract_loops(cx.fi, pc).get(po) if pc is not None else None
             if pspec is not None and f'$i{po}' in state.vars and pspec.get('idx', '_i') != idx_name:
                 state = state.setvar(pspec.get('idx', '_i'), state.vars[f'$i{po}'])
         if spec.get('seq') and f'$it{o}' in state.vars:
@@ -910,6 +958,9 @@ def find_block(fn_node, where):
     """statements designated by a locator:  body[i:j] | loop[o] | loop[o].body | loop[o].body[i:j]"""
     import re
     from .source import strip_docstring
+    if '@' in where and not where.startswith(('between:', 'from:')):
+        # symbolic loop references: loop[@<header>#k] / span(@<header>#k:@<header>#k]
+        where = re.sub(r'@[^\]:]+(?:#\d+)?(?:/\d+)*', lambda m_: resolve_loop_ref(fn_node, m_.group(0)), where)
     ms = re.fullmatch(r'span([\[(])([\d.]+):([\d.]+)\]', where)
     if ms:
         # consecutive statements of one statement list, from loop a (exclusive with '(') through loop b (inclusive)
